@@ -50,6 +50,7 @@ func c05WholeOnce(t *testing.T, s *sim.Scn, k int, o *sim.Outcome) (fired bool) 
 				rw.aggAddr = fmt.Sprintf("%s/p2p/%s", addr, pid)
 			}
 		}
+		rw.applyJitter()
 		agg, full := rw.nodes[0], rw.nodes[1]
 		rw.w.DA.AutoAdvance = true
 		stopAll := func() {
@@ -288,7 +289,7 @@ func c05WholeRun(t *testing.T, s *sim.Scn) *sim.Outcome {
 
 func c05WholeGen(r *rand.Rand, tier string) *sim.Scn {
 	s := &sim.Scn{Cfg: map[string]int64{"whole": 1, "bt": []int64{200, 500, 1000}[r.IntN(3)], "dat": []int64{1000, 2000}[r.IntN(2)], "p2pcut": r.Int64N(2),
-		"lead": []int64{0, 1000, 5000, 12000}[r.IntN(4)], "warm": []int64{0, 300, 1500, 4000}[r.IntN(4)], "txs": r.Int64N(3), "linkms": r.Int64N(40),
+		"lead": []int64{0, 1000, 5000, 12000}[r.IntN(4)], "warm": []int64{0, 300, 1500, 4000}[r.IntN(4)], "txs": r.Int64N(3), "linkms": r.Int64N(40), "jitter": []int64{0, 0, 0, 400, 4000}[r.IntN(5)], "jsalt": r.Int64N(1 << 30),
 		"k0": r.Int64N(3), "kstep": 1 + r.Int64N(4), "eager": r.Int64N(2), "seqdown": []int64{0, 0, 1}[r.IntN(3)]}}
 	if tier == "thorough" {
 		s.Cfg["kstep"] = 1
